@@ -159,11 +159,11 @@ func c03nraw(t *tree.Tree) int {
 // *originals).  It returns the observation of the step and whether the history goes on.
 //
 // *held is the rearrangement kept by an earlier nni_hold step; it survives only steps that
-// keep every node of the tree (sort, rotate, nni_release) and is dropped by any other step.
+// keep every node of the tree (sort, rotate, reroot, nni_release) and is dropped by any other step.
 func c03step(cur **tree.Tree, originals *[]*tree.Tree, held *tree.Rearrangement, c *Sexp) (obs *Sexp, goOn bool) {
 	t := *cur
 	switch c.Str("op") {
-	case "sort", "rotate", "nni_release":
+	case "sort", "rotate", "reroot", "nni_release":
 	default:
 		*held = nil
 	}
